@@ -1,8 +1,18 @@
 """Abstractions (proven contracts) and executor hooks shared by the checks."""
 from engine_m import oblig
-from engine_m.models import Abstraction
+from engine_m.models import Abstraction, BoundAbstraction
 
 def _d2d(ex):
     return Abstraction('days_to_date', 'contract_days_to_date',
                        [('y', 'i32', -5_879_611, 5_879_611), ('m', 'u32', 1, 12), ('d', 'u32', 1, 31)])
 oblig.ABSTRACTION_TABLE['days_to_date'] = _d2d
+
+# uninterpreted variants (congruence only): used where a property compares two calls with provably equal arguments
+def _d2d_uf(ex):
+    return Abstraction('days_to_date', None, [('y', 'i32', -2**31, 2**31 - 1), ('m', 'u32', 0, 2**32 - 1), ('d', 'u32', 0, 2**32 - 1)])
+def _doy_uf(ex):
+    return Abstraction('days_to_doy', None, [('doy', 'u32', 0, 2**32 - 1)])
+oblig.ABSTRACTION_TABLE['days_to_date/uf'] = _d2d_uf
+oblig.ABSTRACTION_TABLE['days_to_doy/uf'] = _doy_uf
+
+oblig.ABSTRACTION_TABLE['days_to_date/bound'] = lambda ex: BoundAbstraction('days_to_date')
